@@ -4,7 +4,7 @@ workloads + (where a model prediction exists) kernel-evaluated comparison with t
 import collections, json, os, re
 from . import common as C
 
-FAMILIES = {"C14": ["hub", "errors"], "C01": ["conc", "closures", "framing"], "C02": ["nest", "closures"], "C09": ["values"], "C10": ["errors"], "C11": ["closures", "hub"],
+FAMILIES = {"C14": ["hub", "errors"], "C01": ["conc", "closures", "framing"], "C02": ["nest", "closures"], "C09": ["values"], "C10": ["errors"], "C11": ["closures", "hub", "framing"],
             "C13": ["hub", "relay", "nestedlink"], "C17": ["wire"]}
 
 
@@ -222,6 +222,9 @@ def mon_c11(rec):
         elif c["m"] == "IterCount":
             if c["err"] != "" or c["ret"] != "0:0/;1:10/;2:8589934594/":
                 out.append("closure with named integer parameters: the callee's invocations returned %r (error %r), expected '0:0/;1:10/;2:8589934594/'" % (c["ret"], c["err"]))
+        elif c["m"] == "IterPanicsOnce":
+            if c["err"] != "" or c["ret"] != "/cbpanic;r1/;r2/" or c.get("extra") != "3":
+                out.append("a function argument that panics on its first invocation: the callee's three invocations ended as %r (call error %r), the function ran %s time(s); expected '/cbpanic;r1/;r2/' and 3 - a late invocation is what must be rejected, not an invocation while the call is in flight" % (c["ret"], c["err"], c.get("extra")))
         elif c["m"] == "Mixed":
             if c["err"] != "" or c["ret"] != "70,800,7,tail":
                 out.append("function arguments declared between plain arguments: the callee computed %r (error %r) from f(n), g(n+1), n, s; expected '70,800,7,tail' (every argument in its declared position)" % (c["ret"], c["err"]))
@@ -283,6 +286,14 @@ def mon_hooks(rec):
                 out.append("during the disconnect notification of %s on %s a concurrent enumeration completed and no longer showed the remote, although the per-link disconnect had not been announced" % (e.get("remote"), e["node"]))
             if e["m"] == "connect" and e.get("data") == "true":
                 out.append("during the connect notification of %s on %s a concurrent enumeration completed and already showed the remote, although the per-link connect had not been announced" % (e.get("remote"), e["node"]))
+    # nothing of a link is handled before its connect notification
+    announced = set()
+    for e in rec.get("events") or []:
+        if e["kind"] == "hook" and e["m"] == "connect":
+            announced.add((e["node"], e.get("remote")))
+        if e["kind"] == "inv" and e.get("remote") and (e["node"], e.get("remote")) not in announced:
+            out.append("node %s handled a request (%s, tag %s) of the link with identifier %s before that link's connect notification" % (e["node"], e["m"], e.get("tag"), e.get("remote")))
+            break
     for (node, rid), ms in per.items():
         want = ["connect", "link-connect", "disconnect", "link-disconnect"]
         if ms != want[:len(ms)] or len(ms) % 2 != 0:
@@ -487,8 +498,12 @@ def mon_framing(rec):
     out = []
     for n in rec.get("notes") or []:
         out.append("%s: %s" % (rec["config"], n))
-    want = {"PeerRequest1": ("5", ""), "NodeCall": ('"x"', ""), "PeerRequest2": ("null", "")}
+    want = {"PeerRequest1": ("5", ""), "NodeCall": ('"x"', ""), "PeerRequest2": ("null", ""),
+            "PeerRequestWithCallable": ("null", "from the peer's function"), "PeerRequest3": ("6", "")}
     for c in rec["calls"] or []:
+        if c["m"] == "MissingAnswer":
+            out.append("%s: after the peer handed back the result of a callable together with a further request, an answer is missing (the callable's result was not handed to the invocation, or the request was not handled)" % rec["config"])
+            continue
         w = want.get(c["m"])
         if w and (c["ret"], c["err"]) != w:
             out.append("%s: %s returned (%s, %r), expected (%s, %r): every request and every response that arrives is delivered, however the peer frames them" % (rec["config"], c["m"], c["ret"], c["err"], w[0], w[1]))
@@ -589,6 +604,9 @@ def mon_c04_sys(rec):
             want = "42" if m == "Probe" else "p/"
             if c["err"] != "" or c["ret"] != want:
                 out.append("the link is not healthy %s: a later %s call from %s returned (%s, %r)" % (c.get("extra"), "closure-carrying" if m == "ProbeClosure" else "plain", c["from"], c["ret"], c["err"]))
+        elif m == "MassCancelled":
+            if c["ret"] != "0":
+                out.append("%s of %s calls cancelled while their handlers were running did not return promptly with the context's error" % (c["ret"], c["arg"]))
         elif m == "CancelledWithCause":
             if c["err"] != "context canceled" or c["ret"] != "0":
                 out.append("a call whose context was cancelled with a cause returned (%s, %r), expected the context's error (0, 'context canceled')" % (c["ret"], c["err"]))
